@@ -334,7 +334,7 @@ func (g *G) kdCase(dim int) int {
 			if k < n {
 				want = all[:k]
 				if k > 0 && all[k-1] == all[k] {
-					g.Stat(kind+" knn ties(k-th = (k+1)-th distance)", 1)
+					g.Stat(kind+" knn ties(kth distance equals next)", 1)
 				}
 			}
 			okRes := len(rs) == len(want)
